@@ -80,4 +80,36 @@ theorem placeTokens_length (pos : Nat) (ts : List Token) : (placeTokens pos ts).
   | nil => rfl
   | cons t ts ih => simp [placeTokens, ih]
 
+/-! ### Placed tokens pass `check_qname` (/repo a5fafb0): an absent prefix is placed at offset 0 -/
+
+theorem placeQName_bareColon (pos : Nat) (p l : Str) : (placeQName pos p l).1.bareColon = false := by
+  unfold placeQName
+  split
+  · rfl
+  · next h =>
+    cases p with
+    | nil => simp at h
+    | cons c cs => simp [StrSpan.bareColon]
+
+theorem Token.place_prefixOk (pos : Nat) (t : Token) : (t.place pos).prefixOk = true := by
+  cases t with
+  | elementStart p l sp => simp [Token.place, Token.prefixOk, placeQName_bareColon]
+  | «attribute» p l v sp => simp [Token.place, Token.prefixOk, placeQName_bareColon]
+  | elementEnd e sp => cases e <;> simp [Token.place, Token.prefixOk, placeQName_bareColon]
+  | pi t c sp => cases c <;> rfl
+  | text t => rfl
+  | cdata t sp => rfl
+  | comment t sp => rfl
+  | _ => rfl
+
+theorem placeTokens_prefixOk : ∀ (ts : List Token) (pos : Nat),
+    tokensPrefixOk (placeTokens pos ts) = true := by
+  intro ts
+  induction ts with
+  | nil => intro _; rfl
+  | cons t r ih =>
+    intro pos
+    simp only [placeTokens, tokensPrefixOk, List.all_cons, Bool.and_eq_true]
+    exact ⟨Token.place_prefixOk pos t, ih _⟩
+
 end XotModel
